@@ -44,6 +44,11 @@ func seqProfile(prop string, cas int, tier string) Profile {
 		if p.Big {
 			p.DiskBlocks = 40000
 		}
+		if cas%4 == 3 {
+			p.Big = false
+			p.NearFull = true
+			p.DiskBlocks = []uint64{1650, 2300}[(cas/4)%2]
+		}
 	case "C05":
 		p.NOps = 180
 		p.DiskBlocks = 9000
@@ -102,6 +107,114 @@ func seqProfile(prop string, cas int, tier string) Profile {
 	return p
 }
 
+func crashCfg(prop string, cas int, tier string) CrashCfg {
+	c := CrashCfg{Name: prop, NOps: 30, DiskBlocks: 20000, Unstable: cas%3 != 2, Timed: cas%5 == 3, Lossy: 1, Depth2Every: 100, Depth2Stride: 5, CutStride: 1, Perturb: cas%2 == 1, Continue: true, ContinueEvery: 3}
+	switch prop {
+	case "C01":
+		c.BigFiles = cas%4 == 1
+		if tier == "thorough" {
+			c.BigFiles = cas%4 == 1
+			c.Lossy = 3
+			c.Depth2Every = 10
+			c.Depth2Stride = 2
+			c.ContinueEvery = 1
+			c.NOps = 50
+		}
+	case "C07":
+		c.WriteHeavy = true
+		c.Restarts = cas%2 == 0
+		c.Unstable = cas%4 != 3
+		c.NOps = 40
+		if tier == "thorough" {
+			c.Lossy = 2
+			c.NOps = 70
+			c.ContinueEvery = 1
+		}
+	case "C04":
+		c.BigFiles = cas%2 == 0
+		c.Continue = false
+		c.CutStride = 2
+		c.Depth2Every = 0
+	case "C05":
+		c.BigFiles = true
+		c.CutStride = 2
+		c.Depth2Every = 0
+		c.NOps = 30
+	case "C12":
+		c.Continue = false
+		c.CutStride = 2
+		c.Depth2Every = 0
+	}
+	return c
+}
+
+func crashJob(job Job) *JobRes {
+	mon.Off()
+	cfg := crashCfg(job.Profile, job.Case, job.Tier)
+	childLog("crash profile=%s seed=%d case=%d", cfg.Name, job.Seed, job.Case)
+	r := runCrash(cfg, job.Seed, job.Case)
+	out := &JobRes{Viol: r.Viol, Evals: r.Images, Counters: Counter{}}
+	out.Distinct = sortedKeys(r.Distinct)
+	out.Counters["crash_images"] = r.Images
+	out.Counters["crash_images_nontrivial(lo<hi)"] = r.NonTrivial
+	out.Counters["crash_images_with_unstable_suffix"] = r.UnstableSuffix
+	out.Counters["crash_images_mid_shrink"] = r.MidShrink
+	out.Counters["crash_images_depth2"] = r.Depth2
+	out.Counters["crash_images_lossy"] = r.LossyN
+	out.Counters["crash_workload_ops"] = r.Ops
+	out.Counters["crash_trace_events"] = r.TraceLen
+	out.Counters["server_instances_with_verifier"] = r.VerfInstances
+	out.Counters.Merge(r.Hist)
+	out.Counters.Merge(r.Lost)
+	out.Samples = []interface{}{map[string]interface{}{"engine": "crash", "profile": cfg.Name, "case": job.Case, "first_ops": r.Sample, "trace_events": r.TraceLen}}
+	return out
+}
+
+func withCrash(base func(string, uint64) []Job, prop string, quick, thorough int) func(string, uint64) []Job {
+	return func(tier string, seed uint64) []Job {
+		js := base(tier, seed)
+		n := quick
+		if tier == "thorough" {
+			n = thorough
+		}
+		for i := 0; i < n; i++ {
+			js = append(js, Job{Engine: "crash", Profile: prop, Seed: seed, Case: i})
+		}
+		return js
+	}
+}
+
+func noJobs(string, uint64) []Job { return nil }
+
+func concCfg(prop string, cas int, tier string) ConcCfg {
+	c := ConcCfg{Name: prop, Hist: 25, Clients: 3 + cas%2, OpsPer: 4 + cas%3, BigFile: cas%2 == 1, Unstable: cas%5 != 4, RPC: cas%4 == 2,
+		Yield: cas%6 != 5, LowChild: cas%3 != 2, Procs: []int{2, 4, 16}[cas%3]}
+	c.Focus = cas%4 == 3
+	if tier == "thorough" {
+		c.Hist = 50
+	}
+	if prop == "C14" {
+		c.NoCheck = true
+		c.OpsPer = 8
+		c.Hist = 12
+	}
+	return c
+}
+
+func withConc(base func(string, uint64) []Job, prop string, quick, thorough int, race bool) func(string, uint64) []Job {
+	return func(tier string, seed uint64) []Job {
+		js := base(tier, seed)
+		n := quick
+		if tier == "thorough" {
+			n = thorough
+		}
+		for i := 0; i < n; i++ {
+			js = append(js, Job{Engine: "conc", Profile: prop, Seed: seed, Case: i, Race: race})
+		}
+		return js
+	}
+}
+
 func seqPlan(prop string, quick, thorough int) func(string, uint64) []Job {
 	return func(tier string, seed uint64) []Job {
 		n := quick
@@ -120,6 +233,18 @@ func dispatch(job Job) *JobRes {
 	switch job.Engine {
 	case "seq":
 		return seqJob(job)
+	case "crash":
+		return crashJob(job)
+	case "census":
+		childLog("census seed=%d case=%d", job.Seed, job.Case)
+		return censusJobRes(runCensus(job.Seed, job.Case, job.Tier))
+	case "conc":
+		cfg := concCfg(job.Profile, job.Case, job.Tier)
+		if job.N > 0 {
+			cfg.Hist = job.N
+		}
+		childLog("conc profile=%s seed=%d case=%d hist=%d", cfg.Name, job.Seed, job.Case, cfg.Hist)
+		return concJobRes(runConc(cfg, job.Seed, job.Case))
 	case "enum":
 		mon.Reset(0, false)
 		childLog("enum seed=%d case=%d", job.Seed, job.Case)
@@ -144,6 +269,9 @@ func dispatch(job Job) *JobRes {
 
 func seqJob(job Job) *JobRes {
 	p := seqProfile(job.Profile, job.Case, job.Tier)
+	if sp, ok := propSpecs()[job.Profile]; ok {
+		p.Own = sp.Classes
+	}
 	mon.Reset(0, false)
 	childLog("seq profile=%s seed=%d case=%d disk=%d ops=%d", p.Name, job.Seed, job.Case, p.DiskBlocks, p.NOps)
 	r := runSeq(p, job.Seed, job.Case)
@@ -231,10 +359,10 @@ func propSpecs() map[string]PropSpec {
 		Assume: []string{"reference model conventions of DESIGN.md §2.2", "open known findings are avoided by the generators (KNOWN_FINDINGS.txt)"}})
 	add(PropSpec{ID: "C04", Level: "exploration", Classes: []string{"fsck", "crash"},
 		Rule: "fsck of the logical disk (repository's own decoders) after every operation of seeded sequences, after concurrent histories and on crash images; distinct = distinct (owned-block-set, tree) hashes of states that have an indirect block or a nested directory",
-		Plan: seqPlan("C04", 32, 600)})
+		Plan: withConc(withCrash(seqPlan("C04", 32, 600), "C04", 4, 60), "C04", 12, 200, false)})
 	add(PropSpec{ID: "C05", Level: "exploration", Classes: []string{"leak", "crash"},
 		Rule: "build-then-delete sequences; conservation (marked = reachable, allocators = bitmaps, no half-freed inode) at shrinker-idle quiescence every 6 ops, after restarts, and after deleting everything; distinct = distinct on-disk state hashes checked",
-		Plan: seqPlan("C05", 32, 600)})
+		Plan: withConc(withCrash(seqPlan("C05", 32, 600), "C05", 4, 60), "C05", 12, 200, false)})
 	add(PropSpec{ID: "C08", Level: "exploration", Classes: []string{"handle", "reply", "crash"},
 		Rule: "inode-reuse-heavy sequences with restarts; every handle bound to one object; a pool of dead handles presented to every procedure and handle position; distinct = distinct (procedure, outcome, argument class) triples incl. deadprobe (procedure, position, reused?) classes",
 		Plan: seqPlan("C08", 32, 600)})
@@ -243,10 +371,37 @@ func propSpecs() map[string]PropSpec {
 		Plan: seqPlan("C09", 30, 600)})
 	add(PropSpec{ID: "C10", Level: "exploration", Classes: []string{"twin", "cache", "crash"},
 		Rule: "sequences with >100 live objects and multi-block directories; every 20 ops: flush, compare live server with a server recovered from a copy of the image and with itself after a clean restart (handles, attributes, times, listing order, bytes), and cached inodes/name caches/allocators with the logical disk; distinct = distinct state hashes at comparison points",
-		Plan: seqPlan("C10", 24, 500)})
+		Plan: withConc(seqPlan("C10", 24, 500), "C10", 8, 100, false)})
 	add(PropSpec{ID: "C12", Level: "exploration", Classes: []string{"content", "crash"},
 		Rule: "block-recycling sequences on small disks (pattern f(write id, offset) never zero), shrink to aligned/unaligned sizes and regrow, free-space sweep at the end; every READ and whole-tree dump compared with the reference; distinct = distinct (procedure, outcome, argument class) triples",
-		Plan: seqPlan("C12", 30, 600)})
+		Plan: withCrash(seqPlan("C12", 30, 600), "C12", 3, 40)})
+	add(PropSpec{ID: "C01", Level: "fault_enumeration", Classes: []string{"crash"},
+		Rule: "each seeded workload (all mutating RPCs, three stability levels, multi-block writes, truncations, big-file removal) is recorded on the crash disk; EVERY prefix cut of its trace, one (thorough: three) lossy image(s) per cut with un-barriered writes lost/reordered, and cuts of sampled recovery runs (depth 2) are recovered by the real MakeNfs; the recovered tree must equal reference state S_j for some lo<=j<=hi, handles preserved, fsck clean, continuation workload in lock-step with S_j; distinct = distinct (recovered tree, on-disk state, lo, hi) with lo<hi (an operation in flight or an unstable suffix)",
+		Plan: withCrash(noJobs, "C01", 8, 150)})
+	add(PropSpec{ID: "C07", Level: "fault_enumeration", Classes: []string{"crash", "verf"},
+		Rule: "write-heavy workloads over several files mixing UNSTABLE/DATA_SYNC/FILE_SYNC, COMMIT and metadata operations, Unstable option on/off, clean restarts without flush; every prefix cut + lossy cuts recovered: state must be a reference prefix >= everything acknowledged stable (loss only as a suffix); every WRITE/COMMIT reply checked for committed level and verifier (constant per instance, different across instances); distinct as C01",
+		Plan: withCrash(noJobs, "C07", 8, 150)})
+	add(PropSpec{ID: "C03", Level: "exploration", Classes: []string{"lin", "crash", "hang", "deadlock"},
+		Rule: "short histories (3-4 clients x 4-6 conflicting RPCs on shared names/files/directories, big file freed by the shrinker in the window, cold caches, children numbered below their directories) recorded at the client boundary with one atomic clock and checked by porcupine against the reference model, the final tree included as a read; schedules widened by seeded yields at lock/commit hooks and disk calls, GOMAXPROCS 2/4/16; distinct = distinct fingerprints of the global (hook site, client, inode) event sequence, counted only if some history had a contended acquire or an abort-and-relock",
+		Plan: withConc(noJobs, "C03", 48, 800, false)})
+	add(PropSpec{ID: "C06", Level: "exploration", Classes: []string{"deadlock", "hang", "crash"},
+		Rule: "every inode-lock request is observed with the locks its transaction holds: (a) single-threaded census over every parent/child pair of trees whose children are numbered both below and above their directories (LOOKUP incl. '.'/'..', READDIR/READDIRPLUS, CREATE/REMOVE, RENAME within/across directories, over existing targets, coinciding inodes, aliased and dead handles; warm and cold caches), (b) concurrent stress with the wait-for detector armed and seeded yields; violations: self-wait, wait-for cycle (both detected before blocking), cycle in the accumulated lock-order graph, transaction abandoned with locks held, > 1000 begin/abort cycles without any commit, wedged server; distinct = distinct (call site, ascending/descending) edge classes and distinct interleaving fingerprints",
+		Plan: func(tier string, seed uint64) []Job {
+			n := 6
+			if tier == "thorough" {
+				n = 60
+			}
+			var js []Job
+			for i := 0; i < n; i++ {
+				js = append(js, Job{Engine: "census", Profile: "C06", Seed: seed, Case: i})
+			}
+			return withConc(func(string, uint64) []Job { return js }, "C06", 32, 600, false)(tier, seed)
+		},
+		Assume: []string{"no gate locks: every other mutex is a leaf taken while inode locks are held (true for this code base)", "fresh (just allocated, free) inodes are exempt from the order: nobody can hold a free inode while waiting for another lock"}})
+	add(PropSpec{ID: "C14", Level: "exploration", Classes: []string{"race", "crash", "hang"},
+		Rule: "the harness is built with -race (which also instruments /repo and GoJournal) and runs the conflicting concurrent histories of C03 (same names, same files, shrinker active, READDIRPLUS during updates, restarts, direct and rpc adapters) with the lock monitor and seeded yields on; every report of the race detector with a repository or GoJournal frame is a violation (de-duplicated by the pair of first repository frames); distinct = distinct interleaving fingerprints, counted only when locks were contended",
+		Plan: withConc(noJobs, "C14", 16, 200, true),
+		Assume: []string{"the race detector only observes the interleavings that were executed", "GORACE=halt_on_error=0: reports are collected from the log files, exit codes are not trusted"}})
 	add(PropSpec{ID: "C13", Level: "exploration", Classes: []string{"enum", "crash"},
 		Rule: "page-by-page enumerations (READDIR and READDIRPLUS) of directories of 10 shapes (empty ... multi-block, freed slots, long names) with every count/dircount/maxcount class, resumption from every cookie previously returned, adds/removes between pages and a concurrent mutator; distinct = distinct (shape, procedure, count class, dircount class) combinations in runs with >= 1 multi-page enumeration",
 		Plan: func(tier string, seed uint64) []Job {
